@@ -129,8 +129,15 @@ pub fn make_module() -> KMap {
         match ctx.instance_and_args(is_string, expected_error)? {
             (KValue::Str(input), [KValue::Number(n)]) => {
                 if *n >= 0.0 {
-                    let result = input.as_str().repeat(usize::from(n));
-                    Ok(result.into())
+                    let count = usize::from(n);
+                    // `str::repeat` panics ("capacity overflow") when the size of the result overflows
+                    // or exceeds the maximum size of an allocation
+                    match input.len().checked_mul(count) {
+                        Some(size) if size <= isize::MAX as usize => {
+                            Ok(input.as_str().repeat(count).into())
+                        }
+                        _ => runtime_error!("the repeated string would be too large"),
+                    }
                 } else {
                     runtime_error!("expected a non-negative number")
                 }
